@@ -4,6 +4,13 @@ import EaselModel.Msafile.AbcTables
 import EaselModel.Msafile.Afa
 import EaselModel.Msafile.Dump
 import EaselModel.Msafile.Digitize
+import EaselModel.Msafile.Write
+import EaselModel.Msafile.A2m
+import EaselModel.Msafile.Clustal
+import EaselModel.Msafile.Psiblast
+import EaselModel.Msafile.Phylip
+import EaselModel.Msafile.Selex
+import EaselModel.Msafile.Stockholm
 /-! Line-protocol driver for the C03 model: `rt fmt=… abc=… <msa fields>`: build, write, read back, re-write. -/
 open EaselModel.Proto EaselModel.Msafile
 
@@ -25,6 +32,26 @@ def roundTrip (write : Msa → Bytes) (read : List Bytes → Res Msa × List Byt
     pre ++ resToken (.ok m2) ++ " rd2=" ++ r2 ++ " rw=" ++ (if write m2 == b then "same" else "diff")
   | (r, _) => pre ++ resToken r
 
+/-- Stockholm/Pfam: the reader model does not carry the numeric value of weights and cut-offs, so re-writing the re-read
+    alignment cannot be predicted when they are present: the answer then stops after `rd2=` -/
+def roundTripSto (write : Msa → Bytes) (read : List Bytes → Res Msa × List Bytes) (m : Msa) : String :=
+  let full := roundTrip write read m
+  if m.hasw || m.cutoff.any Option.isSome then
+    match full.splitOn " rw=" with
+    | pre :: _ => pre
+    | [] => full
+  else full
+
+/-- formats whose reader is not modelled yet: the answer stops after `bytes=` -/
+def writeOnly (write : Msa → Bytes) (m : Msa) : String :=
+  "build=ok m=" ++ m.dump ++ " wr=ok bytes=" ++ hexOrDash (write m)
+
+/-- `printf("%.2f")` / `printf("%.1f")` alone (op `fmt d=<16 hex> f=<8 hex>`), for the differential test of `fmtF2`/`fmtF1` -/
+def fmtOp (ws : List String) : String :=
+  let d := parseHex64 ((arg? ws "d").getD "0")
+  let f := UInt32.ofNat (parseHex64 ((arg? ws "f").getD "0")).toNat
+  "f2=" ++ hexOrDash (fmtF2 d) ++ " f1=" ++ hexOrDash (fmtF1 f)
+
 def rtOp (ws : List String) : String :=
   match arg? ws "fmt", abcOf ((arg? ws "abc").getD "text") with
   | some fmt, some abc =>
@@ -36,6 +63,15 @@ def rtOp (ws : List String) : String :=
     | none => "build=einval"
     | some m =>
       if fmt == "afa" then roundTrip (afaWrite abc) (afaRead (afaCfg abc)) m
+      else if fmt == "a2m" then roundTrip (a2mWrite abc) (a2mRead (a2mCfg abc)) m
+      else if fmt == "psiblast" then roundTrip (psiblastWrite abc) (psiblastRead (psiblastCfg abc)) m
+      else if fmt == "clustal" then roundTrip (clustalWrite false abc) (clustalRead false (clustalCfg abc)) m
+      else if fmt == "clustallike" then roundTrip (clustalWrite true abc) (clustalRead true (clustalCfg abc)) m
+      else if fmt == "phylip" then roundTrip (phylipWrite false abc) (phylipRead false (phylipCfg abc)) m
+      else if fmt == "phylips" then roundTrip (phylipWrite true abc) (phylipRead true (phylipCfg abc)) m
+      else if fmt == "stockholm" then roundTripSto (stockholmWrite false abc) (stockholmRead (stockholmCfg abc)) m
+      else if fmt == "pfam" then roundTripSto (stockholmWrite true abc) (stockholmRead (stockholmCfg abc)) m
+      else if fmt == "selex" then roundTrip (selexWrite abc) (selexRead (selexCfg abc)) m
       else "unmodelled"
   | _, _ => "unmodelled"
 
@@ -43,6 +79,7 @@ def step (s : Unit) (line : String) : Unit × String :=
   let ws := words line
   match ws with
   | "rt" :: _ => (s, rtOp ws)
+  | "fmt" :: _ => (s, fmtOp ws)
   | _ => (s, "unmodelled")
 
 def main : IO Unit := runDriver () step
